@@ -460,7 +460,37 @@ pub fn run(_params: &Params) {
       }
       let Ok(cred) = Credential::<Object>::from_json_value(c) else { continue };
       let truth = serde_json::to_value(&cred).unwrap();
-      let Ok(payload) = cred.serialize_jwt(None) else { continue };
+      let Ok(mut payload) = cred.serialize_jwt(None) else { continue };
+      // An issuer that follows the SD-JWT draft binds the credential to a key with a confirmation claim (`cnf.jwk`):
+      // the key of a holder - not necessarily the one whose document the verifier will later pass in - or of somebody
+      // else altogether. Whatever it names, the KB-JWT has to verify under a key of the SUPPLIED holder document.
+      if ctx::choose(3) == 0 {
+        let who: &Party = match ctx::choose(3) {
+          0 => &holders[ctx::choose(holders.len())],
+          1 => &holders[holders.len() - 1],
+          _ => &adv,
+        };
+        let frag = if std::ptr::eq(who, &adv) { "adv" } else { "kb" };
+        let jwk: Option<Value> = {
+          let j = who.core_json();
+          let mut found = None;
+          for k in ["verificationMethod", "authentication", "assertionMethod", "keyAgreement", "capabilityInvocation", "capabilityDelegation"] {
+            if let Some(a) = j.get(k).and_then(|a| a.as_array()) {
+              for m in a {
+                if m.get("id").and_then(|i| i.as_str()).map(|i| i.ends_with(&format!("#{frag}"))).unwrap_or(false) {
+                  found = m.get("publicKeyJwk").cloned();
+                }
+              }
+            }
+          }
+          found
+        };
+        if let (Some(jwk), Ok(mut v)) = (jwk, serde_json::from_str::<Value>(&payload)) {
+          v["cnf"] = serde_json::json!({ "jwk": jwk });
+          payload = v.to_string();
+          ctx::stat("probe.sd_jwt_with_confirmation_claim");
+        }
+      }
       let Ok(mut enc) = SdObjectEncoder::new(&payload) else { continue };
       let mut concealed: Vec<Concealed> = Vec::new();
       let salt = || Some(crate::core::b64::encode(ctx::bytes(16)));
